@@ -414,6 +414,66 @@ Theorem C16_history_hyps_met :
   IdleQ ex_b1 /\ wanted (ob_cap (s_ob (w_sess ex_b1))) [ex_pub; ex_pub] ex_b1.
 Proof. exact history_hyps_met. Qed.
 
+(* ---- the same for all four acknowledged operations, mixed in any order: SUBSCRIBE, UNSUBSCRIBE, QoS 1 and QoS 2 publishes (the
+   latter with two polls).  `request_ok`: the request is valid, fits the transmit buffer and (publishes) is not QoS 0 for the
+   session it meets; `exchange`: the operation returns its handle, then poll() is called once (twice for QoS 2);
+   `history`: after each exchange the handle is neither retained nor awaiting release. ---- *)
+Theorem C16_exchange_idle_to_idle : forall w q,
+  IdleQ w -> request_ok (ob_cap (s_ob (w_sess w))) w q ->
+  exists op w2, exchange w q op w2 /\
+    has_retained (s_ob (w_sess w2)) (op_pid op) = false /\ has_pending_release (s_ob (w_sess w2)) (op_pid op) = false /\
+    w_now w2 = w_now w /\ ob_cap (s_ob (w_sess w2)) = ob_cap (s_ob (w_sess w)) /\ IdleQ w2.
+Proof. exact exchange_idle. Qed.
+
+Theorem C16_history_completes : forall qs w,
+  IdleQ w -> wanted_all (ob_cap (s_ob (w_sess w))) qs w ->
+  exists w', history w qs w' /\ IdleQ w' /\ w_now w' = w_now w.
+Proof. exact history_completes. Qed.
+
+Theorem C16_qos2_exchange_idle_to_idle : forall w r s2 op ps,
+  Idle w ->
+  publish_middle (w_sess w) true r = (s2, MRetained op) ->
+  effective_qos (w_sess w) (pr_qos r) = Q2 -> pr_props r = PSlice ps -> op_pid op < 65536 ->
+  exists w1 w2 w3 bs cap off,
+    op_publish FUEL r w = (w1, ODone (Some op)) /\
+    enc_publish cap (pub_request r Q2 (op_pid op)) = SOk off bs /\ w_wire w1 = w_wire w ++ bs /\
+    op_poll FUEL w1 = (w2, ODone None) /\ w_wire w2 = w_wire w1 ++ rel_bytes (op_pid op) 0 /\
+    op_poll FUEL w2 = (w3, ODone None) /\ w_wire w3 = w_wire w2 /\ w_now w3 = w_now w /\
+    has_retained (s_ob (w_sess w3)) (op_pid op) = false /\ has_pending_release (s_ob (w_sess w3)) (op_pid op) = false /\
+    rt_quota (s_rt (w_sess w3)) = N.min (N.min (rt_quota (s_rt (w_sess w)) - 1 + 1) 65535) (rt_maxquota (s_rt (w_sess w))) /\
+    rt_maxquota (s_rt (w_sess w3)) = rt_maxquota (s_rt (w_sess w)) /\ rt_quota (s_rt (w_sess w)) <> 0 /\
+    ob_cap (s_ob (w_sess w3)) = ob_cap (s_ob (w_sess w)) /\
+    Idle w3.
+Proof. exact qos2_exchange_idle. Qed.
+
+Theorem C16_subscribe_exchange_idle_to_idle : forall w topics ps s2 op,
+  Idle w -> topics <> [] -> props_valid_for (PSlice ps) CtxSubscribe = true ->
+  subscribe_middle (w_sess w) topics ps = (s2, MRetained op) -> op_pid op < 65536 ->
+  exists w1 w2 bs cap off,
+    op_subscribe FUEL topics ps w = (w1, ODone (Some op)) /\
+    enc_subscribe cap {| sq_pid := op_pid op; sq_props := ps; sq_topics := topics |} = SOk off bs /\ w_wire w1 = w_wire w ++ bs /\
+    op_poll FUEL w1 = (w2, ODone None) /\ w_wire w2 = w_wire w1 /\ w_now w2 = w_now w /\
+    has_retained (s_ob (w_sess w2)) (op_pid op) = false /\
+    s_rt (w_sess w2) = s_rt (w_sess w) /\ ob_cap (s_ob (w_sess w2)) = ob_cap (s_ob (w_sess w)) /\
+    Idle w2.
+Proof. exact subscribe_exchange_idle. Qed.
+
+Theorem C16_unsubscribe_exchange_idle_to_idle : forall w topics ps s2 op,
+  Idle w -> topics <> [] -> props_valid_for (PSlice ps) CtxUnsubscribe = true ->
+  unsubscribe_middle (w_sess w) topics ps = (s2, MRetained op) -> op_pid op < 65536 ->
+  exists w1 w2 bs cap off,
+    op_unsubscribe FUEL topics ps w = (w1, ODone (Some op)) /\
+    enc_unsubscribe cap {| uq_pid := op_pid op; uq_props := ps; uq_topics := topics |} = SOk off bs /\ w_wire w1 = w_wire w ++ bs /\
+    op_poll FUEL w1 = (w2, ODone None) /\ w_wire w2 = w_wire w1 /\ w_now w2 = w_now w /\
+    has_retained (s_ob (w_sess w2)) (op_pid op) = false /\
+    s_rt (w_sess w2) = s_rt (w_sess w) /\ ob_cap (s_ob (w_sess w2)) = ob_cap (s_ob (w_sess w)) /\
+    Idle w2.
+Proof. exact unsubscribe_exchange_idle. Qed.
+
+Theorem C16_mixed_history_hyps_met :
+  IdleQ ex_b1 /\ wanted_all (ob_cap (s_ob (w_sess ex_b1))) [ex_req_sub; ex_req_q2] ex_b1.
+Proof. exact mixed_history_hyps_met. Qed.
+
 Print Assumptions C16_progress_decreases_work.
 Print Assumptions C16_reachable_invariant.
 Print Assumptions C16_drive_loop_terminates.
@@ -448,3 +508,9 @@ Print Assumptions C16_publish_accepted_when_idle.
 Print Assumptions C16_qos1_exchange_idle_to_idle.
 Print Assumptions C16_qos1_history_completes.
 Print Assumptions C16_history_hyps_met.
+Print Assumptions C16_exchange_idle_to_idle.
+Print Assumptions C16_history_completes.
+Print Assumptions C16_qos2_exchange_idle_to_idle.
+Print Assumptions C16_subscribe_exchange_idle_to_idle.
+Print Assumptions C16_unsubscribe_exchange_idle_to_idle.
+Print Assumptions C16_mixed_history_hyps_met.
